@@ -83,8 +83,41 @@ def calls_in(d):
     return out
 
 
-def explore_expand(P, u):
-    """paths of expand_macro(rest, tok) with every helper opaque; returns (it, [(ctx, out, info)])"""
+def list_passes(u, fname):
+    """functions of the unit, other than the known helpers, that `fname` calls and that map one token list to a token list
+    (`Token *g(Token *)`): kept opaque in the exploration of fname and judged on their own"""
+    out = []
+    for c in u.fn(fname).walk():
+        g = c.callee() if c.kind == 'CallExpr' else None
+        if g is None or g in out or g in EXPAND_ANCHORS or g in KNOWN_CALLS or g not in u.functions:
+            continue
+        ps = u.params(g)
+        rt = (u.fn(g).type or '').split('(')[0].replace(' ', '')
+        if len(ps) == 1 and (ps[0].type or '').replace(' ', '') == 'Token*' and rt == 'Token*':
+            out.append(g)
+    return out
+
+
+def replacement_certainly_empty(it, u, ctx):
+    """on this path of expand_macro the finished replacement (the list add_hideset returns) is known to be empty"""
+    eof = u.enums.get('TK_EOF')
+    for e in ctx.events:
+        if e[0] == 'call' and e[1] == 'add_hideset' and len(e) > 4:
+            b = it.settle(e[4])
+            if isinstance(b, View):
+                cs = [c for c in b.cell.cands if isinstance(c, Obj)]
+                b = cs[0] if len(cs) == 1 else None
+            if isinstance(b, Obj) and 'kind' in b.fields:
+                k = it.settle(b.fields['kind'])
+                if isinstance(k, int) and k == eof:
+                    return True
+    return False
+
+
+def explore_expand(P, u, with_empty=False):
+    """paths of expand_macro(rest, tok) with every helper opaque; returns (it, [(ctx, out, info)]).
+    with_empty=False: paths on which the replacement is known to be empty are left out (there is no first token of the
+    replacement to speak about; R09.15 looks at them)."""
     for f in EXPAND_ANCHORS:
         if f not in u.functions:
             raise AnalysisBroken('anchor function %s vanished from %s' % (f, U))
@@ -125,7 +158,7 @@ def explore_expand(P, u):
             return super().e_CallExpr(n, env)
 
     it = EI(P, u, {'opaque': ['hideset_contains', 'find_macro', 'hideset_union', 'new_hideset', 'add_hideset', 'subst', 'append',
-                              'hideset_intersection', 'equal', 'copy_token'],
+                              'hideset_intersection', 'equal', 'copy_token'] + list_passes(u, 'expand_macro'),
                    'cut': {'read_macro_args': cut_rma}, 'loop_limit': 1, 'track_stores': True})
     def mk(ctx):
         box = {'rest': 0}
@@ -137,6 +170,8 @@ def explore_expand(P, u):
     paths = it.explore('expand_macro', mk)
     out = []
     for ctx, o in paths:
+        if not with_empty and replacement_certainly_empty(it, u, ctx):
+            continue
         out.append((ctx, o, ctx.box['rest']))
     return it, out
 
@@ -145,8 +180,9 @@ def explore_expand(P, u):
 SUBST_ANCHORS = ('subst', 'find_arg', 'stringize', 'paste', 'preprocess2', 'copy_token', 'read_macro_arg_one', 'has_varargs')
 
 
-def explore_subst(P, u, loop_limit=2):
-    """paths of subst(body, args) over abstract body tokens; each token has one spelling-class cell."""
+def explore_subst(P, u, loop_limit=2, only=None, max_paths=200000):
+    """paths of subst(body, args) over abstract body tokens; each token has one spelling-class cell.
+    only: restrict the spellings of replacement-list tokens to these classes (a sub-language of replacement lists)."""
     from .lib_c09 import (literals_compared, make_equal_model, make_find_arg_model, m_copy_token, copy_lazy_field, PARAM, OTHER)
     for f in SUBST_ANCHORS:
         if f not in u.functions:
@@ -164,6 +200,7 @@ def explore_subst(P, u, loop_limit=2):
         return res
 
     summ = creator_summaries(P, u)
+    cell = [c for c in classes if c in only] if only else None
 
     def fresh_token(it, ctx, n, args, name):
         # stringize()/paste() return the first token of tokenize(new_file(..)): at_bol = true, has_space = false,
@@ -185,12 +222,21 @@ def explore_subst(P, u, loop_limit=2):
             res.meta['lhs'] = lhs
             res.meta['lhs_flags'] = {f: it.read_field(lhs, f) for f in ('at_bol', 'has_space')}
             res.meta['lhs_copy_of'] = lhs.meta.get('copy_of')      # (a struct assignment `*cur = *paste(..)` replaces cur's meta)
+            res.meta['lhs_meta'] = dict(lhs.meta)
+        res.meta['paste_args'] = list(args)
         ctx.emit('call', 'paste', args, n.line, res)
         return res
 
+    def cut_subst(it, ctx, n, args):
+        # a nested application of subst (to the content of __VA_OPT__): by induction, the substituted list
+        res = Obj('Token', lazy=True, label=ctx.fresh('substituted'))
+        res.meta['subst_args'] = list(args)
+        ctx.emit('call', 'subst', args, n.line, res)
+        return res
+
     it = PInterp(P, u, {'opaque': ['preprocess2', 'has_varargs', 'skip'],
-                        'cut': {'read_macro_arg_one': cut_rmao, 'stringize': cut_stringize, 'paste': cut_paste},
-                        'models': {'copy_token': m_copy_token, 'equal': make_equal_model(classes, False), 'find_arg': make_find_arg_model(classes)},
+                        'cut': {'read_macro_arg_one': cut_rmao, 'stringize': cut_stringize, 'paste': cut_paste, 'subst': cut_subst},
+                        'models': {'copy_token': m_copy_token, 'equal': make_equal_model(classes, False, cell), 'find_arg': make_find_arg_model(classes, cell)},
                         'loop_limit': loop_limit, 'track_stores': True, 'lazy_field': copy_lazy_field})
 
     def mk(ctx):
@@ -198,7 +244,7 @@ def explore_subst(P, u, loop_limit=2):
         ctx.body = body
         return [body, Obj('MacroArg', lazy=True, label='args')]
 
-    paths = it.explore('subst', mk, max_paths=200000)
+    paths = it.explore('subst', mk, max_paths=max_paths)
     return it, paths, classes
 
 
@@ -327,13 +373,24 @@ class SubstPath:
                 k += 1
 
     def owner(self, x):
-        """parameter token whose raw argument list starts at x, else None"""
+        """parameter token whose raw argument list (or a token-by-token private copy of it) starts at x, else None"""
         if isinstance(x, View) and id(x.cell) in self.rawcell and x.tag == 'id':
             return self.rawcell[id(x.cell)]
         x = self.it.settle(x)
+        k = 0
+        while isinstance(x, Obj) and id(x) not in self.raw and x.meta.get('copy_of') is not None and k < 8:
+            x = x.meta['copy_of']
+            k += 1
         if isinstance(x, Obj) and id(x) in self.raw and self.raw[id(x)][1] == 0:
             return self.raw[id(x)][0]
         return None
+
+    def is_shared_arg_list(self, x):
+        """x IS (not: is a copy of) the token list stored in a MacroArg of the invocation"""
+        if isinstance(x, View) and id(x.cell) in self.rawcell and x.tag == 'id':
+            return True
+        x = self.it.settle(x)
+        return isinstance(x, Obj) and id(x) in self.raw
 
     def is_expanded(self, x):
         if isinstance(x, View) and id(x.cell) in self.expcell:
